@@ -13,6 +13,9 @@ Proof. reflexivity. Qed.
 Lemma eqb_false_neq : forall a b : N, (a =? b) = false <-> a <> b.
 Proof. intros; apply N.eqb_neq. Qed.
 
+Lemma lrev_rev : forall l, lrev l = rev l.
+Proof. intros. unfold lrev. symmetry. apply rev_alt. Qed.
+
 (** * strip_prefix / starts_with *)
 Lemma strip_prefix_app : forall p r, strip_prefix p (p ++ r) = Some r.
 Proof.
@@ -409,7 +412,7 @@ Qed.
 Lemma cdata_loop_id : forall t rbuf, existsb (N.eqb 13) t = false ->
   match rbuf with x :: _ => x <> 13 | [] => True end -> cdata_loop t rbuf = rev rbuf ++ t.
 Proof.
-  induction t as [|b t IH]; intros rbuf Ht Hr; cbn [cdata_loop]; [rewrite app_nil_r; reflexivity|].
+  induction t as [|b t IH]; intros rbuf Ht Hr; cbn [cdata_loop]; [rewrite app_nil_r; apply lrev_rev|].
   cbn [existsb] in Ht. apply orb_false_iff in Ht. destruct Ht as [Hb Ht].
   assert (Hb' : (b =? 13) = false) by (rewrite N.eqb_sym; exact Hb).
   assert (E : push_from_text rbuf b (is_nil t) = b :: rbuf).
